@@ -173,7 +173,7 @@ def o2(ctx):
             raise AnalysisError("%s: no effect call recognised" % q)
         for n, labels in eff_nodes:
             after = cfg.after_normal(n)
-            callee = "/".join(F.callee_names(fi, n)[:3]) or n.kind
+            callee = "/".join(sorted(F.effect_callees(fi, n))[:3]) or "/".join(F.callee_names(fi, n)[:3]) or n.kind
             bad = {}
             for m in cfg.stmt_nodes():
                 if m.id not in after:
@@ -548,6 +548,21 @@ def w2(ctx):
         blocked = list(unchanged_edges) + [(c, m, l) for c in commits for m, l in c.succ if l != "exc"]
         r = cfg.reachable([cfg.entry], block_edges=blocked, follow_exc=False)
         ok = cfg.exit.id not in r
+        if not ok:
+            # boolean temporaries recording the comparison: walk with every change test assumed to say 'changed';
+            # without passing a commit the exit must then be unreachable
+            from .common import const_walk
+
+            def decide(t_, _iv=index_vars):
+                lab_ = _is_change_test(t_, _iv)
+                return None if lab_ is None else (lab_ == "t")
+
+            try:
+                r2 = const_walk(cfg, [cfg.entry], {}, decide=decide,
+                                block_edges=[(c, m, l) for c in commits for m, l in c.succ if l != "exc"])
+                ok = cfg.exit.id not in r2
+            except AnalysisError:
+                pass
         obs.append(ctx.ob(ok, fi.qualname, fi.where, "normal return implies committed or unchanged",
                           "every normal path passes _commit_tree or the 'unchanged' side of the id comparison",
                           "%s can return an etag without having committed and without the new/old id comparison saying 'unchanged': the write is "
